@@ -258,6 +258,12 @@ def run(s):
     s.oblige("C01.constants", lambda: constants(ns), [MOD + "_h", MOD + "_k", MOD + "h_div_k", "cij.util.units"], kind="finite")
     # ---------------- q_weights at every size 1..8 [F over sizes, values symbolic]
     s.oblige("C01.q_weights(sizes 1..8)", lambda: q_weights(ns), [MOD + L + ".q_weights"], kind="finite")
+    # ---------------- the (omega, gamma, V dgamma/dV) arrays the formulas above are fed with: mode_gamma.py is one of this property's anchored files.  The identity
+    # c = A/(5e^2) + P/(3e) is about gamma = -dln(omega)/dln(V) OF THE FREQUENCIES HANDED OVER WITH IT: the triple-consistency obligations of C11 (every per-method
+    # function returns derivative orders 0, 1, 2 of ONE interpolant at the same abscissae) are registered here as well
+    from props import C11
+    C11.run(core.SubSession(s, lambda n: n.replace("C11.", "C01.mode_gamma."), lambda n: n.startswith("C11.triple[")))
+
     # ---------------- numpy-stub validation against real numpy (engine self-check)
     try:
         crosscheck_numpy(s, ns)
